@@ -563,3 +563,77 @@ def pool_specs():
                   st.integers(100, 700), st.integers(0, 20), st.integers(0, 10 ** 6)))
     return st.one_of(st.none(), st.builds(lambda k, s: {"size": k, "schedule": s},
                                           st.sampled_from([2, 3, 4, 6, 16]), sched))
+
+
+# --------------------------------------------------------------------------- #
+# large cases stored as recipes (thousands of rows would bloat replay files)
+
+
+@st.composite
+def large_specs(draw, aggs, max_k=10):
+    """Hundreds to thousands of rows, few or MANY categories (extent ~ N / 3), up to ten fact columns: size-dependent
+    paths inside the aggregate functions (buffers, bincount lengths, per-category loops) are crossed.
+    The row data is generated from three small integers by expand()."""
+    N = draw(st.sampled_from([300, 1100, 2500]))
+    nd = draw(st.sampled_from([1, 1, 2]))
+    dims = []
+    for i in range(nd):
+        many = i == 0 and draw(st.booleans())
+        extent = draw(st.sampled_from([N // 3, 257, 1000])) if many else draw(st.integers(2, 5))
+        tail = [] if (many or i > 0) else list(draw(st.sampled_from([(), (), (2,), (3,)])))
+        dims.append({"tail": tail, "extent": extent, "common": draw(st.sampled_from([0, 1, extent - 1, extent])),
+                     "big": False})
+    agg = draw(st.sampled_from(aggs))
+    case = {"N": N, "dims": dims, "shape_mode": draw(st.sampled_from(["inferred", "exact"])), "pads": [1] * nd,
+            "readonly": False, "reverse": draw(st.booleans()), "alias": None, "agg": agg,
+            "recipe": [draw(st.integers(1, 9)), draw(st.integers(0, 9)), draw(st.integers(0, 9))]}
+    case["fact"] = None if agg == "count" else {
+        "K": draw(st.sampled_from([None, None, 2, max_k])), "dtype": draw(st.sampled_from(["float", "int"])),
+        "form": "tuple", "as_list": False, "dyadic": True, "mode": "plain"}
+    if case["fact"] is not None and case["fact"]["dtype"] == "float":
+        case["fact"]["form"] = draw(st.sampled_from(["nan", "tuple"]))
+    case["weights"] = draw(st.sampled_from([None, {"kind": "array", "dtype": "float", "form": "tuple",
+                                                    "as_list": False, "rough": False, "wide": False},
+                                            {"kind": "array", "dtype": "int", "form": "plain", "as_list": False,
+                                             "rough": False, "wide": False}]))
+    return case
+
+
+def expand(case):
+    """Fill in the row data of a recipe case (deterministic arithmetic on three small integers)."""
+    if not case.get("recipe") or "data" in (case["dims"][0] if case["dims"] else {"data": 1}):
+        return case
+    N = case["N"]
+    a, b, c = case["recipe"]
+    case = dict(case)
+    dims = []
+    for j, d in enumerate(case["dims"]):
+        size = N * _prod(d["tail"])
+        ext = d["extent"]
+        # skewed towards category (b % ext): most rows there, the rest spread over all categories
+        fav = (b + j) % ext
+        data = []
+        for i in range(size):
+            h = (i * (7 + 2 * a + j) + (i // (3 + c)) * 13 + i * i % (5 + b)) % (4 * ext)
+            data.append(h if h < ext else fav)
+        dims.append(dict(d, data=data))
+    case["dims"] = dims
+    if case.get("fact") is not None:
+        f = dict(case["fact"])
+        K = f["K"] or 1
+        f["values"] = [((i * 7 + a + (i // K) * 3) % 41) - 20 for i in range(N * K)]
+        f["valid"] = [((i + b) % 11) != 0 for i in range(N * K)]
+        f["junk"] = [i % 3 for i in range(N * K)]
+        case["fact"] = f
+    if case.get("weights") is not None:
+        w = dict(case["weights"])
+        if w["dtype"] == "int":
+            w["values"] = [(i + c) % 4 for i in range(N)]
+            w["valid"] = [True] * N
+        else:
+            w["values"] = [512 * ((i + c) % 5) for i in range(N)] if w.get("zero_ok", True) else [
+                512 * (1 + (i + c) % 4) for i in range(N)]
+            w["valid"] = [((i + a) % 13) != 0 for i in range(N)]
+        w["junk"] = [i % 3 for i in range(N)]
+        case["weights"] = w
+    return case
